@@ -330,6 +330,19 @@ def deref_node_reuse():
     progs.append(['TYPE IP = ^INTEGER', 'DECLARE a : INTEGER', 'DECLARE b : INTEGER', 'a <- 1', 'b <- 2',
                   'PROCEDURE Show(BYREF h : IP)', '  OUTPUT h^', '  h^ <- h^ + 1', 'ENDPROCEDURE',
                   'DECLARE p : IP', 'DECLARE q : IP', 'DECLARE never : IP', 'p <- ^a', 'q <- ^b', 'CALL Show(p)', 'CALL Show(q)', 'CALL Show(p)', 'OUTPUT a, " ", b', 'CALL Show(never)'])
+    # one `p^.field` expression, the pointer re-pointed between its evaluations: fields of every type, nested fields, array fields
+    ev = ['TYPE Inner', '  DECLARE k : INTEGER', 'ENDTYPE', 'TYPE Ev', '  DECLARE when : DATE', '  DECLARE n : INTEGER', '  DECLARE label : STRING', '  DECLARE tags : ARRAY[1:2] OF INTEGER', '  DECLARE inner : Inner', 'ENDTYPE',
+          'TYPE EvPtr = ^Ev', 'DECLARE e1, e2, e3 : Ev', 'DECLARE p : EvPtr',
+          'e1.when <- 1/2/2003', 'e2.when <- 15/6/2010', 'e3.when <- 31/12/1999', 'e1.n <- 1', 'e2.n <- 2', 'e3.n <- 3', 'e1.label <- "one"', 'e2.label <- "two"', 'e3.label <- "three"',
+          'e1.tags[2] <- 12', 'e2.tags[2] <- 22', 'e3.tags[2] <- 32', 'e1.inner.k <- 101', 'e2.inner.k <- 102', 'e3.inner.k <- 103']
+    loop = ['FOR i <- 1 TO 3', '  IF i = 1 THEN', '    p <- ^e1', '  ENDIF', '  IF i = 2 THEN', '    p <- ^e2', '  ENDIF', '  IF i = 3 THEN', '    p <- ^e3', '  ENDIF',
+            '  OUTPUT p^.when, " ", DAY(p^.when), " ", MONTH(p^.when), " ", YEAR(p^.when), " ", DAYINDEX(p^.when), " ", p^.when < 1/1/2005, " ", p^.when = 15/6/2010',
+            '  OUTPUT p^.n, " ", p^.label, " ", p^.tags[2], " ", p^.inner.k', '  p^.n <- p^.n + 100', '  p^.when <- SETDATE(i, 1, 2010)', '  p^.tags[1] <- i', '  p^.inner.k <- p^.inner.k * 2', 'NEXT i',
+            'OUTPUT e1.n, " ", e2.n, " ", e3.n, " ", e1.when, " ", e2.when, " ", e3.when, " ", e1.tags[1], " ", e2.tags[1], " ", e3.tags[1], " ", e1.inner.k, " ", e2.inner.k, " ", e3.inner.k']
+    progs.append(ev + loop)
+    progs.append(ev + ['PROCEDURE Visit()'] + ['  ' + l for l in loop] + ['ENDPROCEDURE', 'CALL Visit()', 'CALL Visit()'])
+    progs.append(ev + ['DECLARE evs : ARRAY[1:3] OF Ev', 'evs[1] <- e1', 'evs[2] <- e2', 'evs[3] <- e3', 'FOR i <- 1 TO 3', '  p <- ^evs[i]', '  OUTPUT p^.when, " ", p^.n, " ", evs[i].label', '  p^.n <- 0 - i', 'NEXT i',
+                       'OUTPUT evs[1].n, " ", evs[2].n, " ", evs[3].n, " ", e1.n'])
     return [Case(J(p), limits=dict(steps=10000), meta=dict(gen='deref-node-reuse', sample=False)) for p in progs]
 
 # ------------------------------------------------------------------ '&' on every pair of operand kinds, empty strings included
@@ -1265,6 +1278,39 @@ def failing_calls_then_probes():
         out.append(Case(mode='repl', stdin=J(ent), limits=dict(steps=30000), meta=dict(gen='failing-calls-then-probes', sample=False)))
     return out
 
+def single_kind_random_sessions():
+    """a RANDOM handle on which every PUTRECORD between OPENFILE and CLOSEFILE (or exit) is of ONE kind of variable -- only whole arrays,
+    only records, only scalars of one type, or a single PUTRECORD in all -- replacing an existing record and appending one; the file is
+    then observed after CLOSEFILE + OPENFILE, at exit without CLOSEFILE, and by a second program reading it"""
+    out = []
+    kinds = {
+        'array': (['DECLARE v : ARRAY[1:3] OF INTEGER', 'DECLARE w : ARRAY[1:3] OF INTEGER'], ['v[1] <- 1', 'v[2] <- 2', 'v[3] <- 3'], ['v[2] <- 20'], 'OUTPUT w[1], " ", w[2], " ", w[3]'),
+        'array-of-strings': (['DECLARE v : ARRAY[1:2] OF STRING', 'DECLARE w : ARRAY[1:2] OF STRING'], ['v[1] <- "a b"', 'v[2] <- ""'], ['v[2] <- "changed"'], 'OUTPUT w[1], "|", w[2]'),
+        'record': (['TYPE R', '  DECLARE n : INTEGER', '  DECLARE t : ARRAY[1:2] OF REAL', 'ENDTYPE', 'DECLARE v : R', 'DECLARE w : R'], ['v.n <- 1', 'v.t[2] <- 2.5'], ['v.n <- 10'], 'OUTPUT w.n, " ", w.t[2]'),
+        'integer': (['DECLARE v : INTEGER', 'DECLARE w : INTEGER'], ['v <- 1'], ['v <- 10'], 'OUTPUT w'),
+        'string': (['DECLARE v : STRING', 'DECLARE w : STRING'], ['v <- "one"'], ['v <- "ten"'], 'OUTPUT w'),
+        'array-2d': (['DECLARE v : ARRAY[1:2, 0:1] OF BOOLEAN', 'DECLARE w : ARRAY[1:2, 0:1] OF BOOLEAN'], ['v[1, 0] <- TRUE', 'v[2, 1] <- TRUE'], ['v[1, 0] <- FALSE'], 'OUTPUT w[1, 0], " ", w[2, 1]'),
+    }
+    for kname, (decl, init, change, show) in kinds.items():
+        for seeded in (False, True):
+            for ending in ('close-reopen', 'exit', 'single-put'):
+                L = decl + init + ['OPENFILE "d.dat" FOR RANDOM']
+                if not seeded:
+                    L += ['PUTRECORD "d.dat", v', 'SEEK "d.dat", 2', 'PUTRECORD "d.dat", v', 'CLOSEFILE "d.dat"', 'OPENFILE "d.dat" FOR RANDOM']
+                # the session under test: one kind only
+                L += change + (['SEEK "d.dat", 1', 'PUTRECORD "d.dat", v'] if ending != 'single-put' else []) + ['SEEK "d.dat", 3', 'PUTRECORD "d.dat", v']
+                L += ['SEEK "d.dat", 1', 'GETRECORD "d.dat", w', show]
+                if ending != 'exit':
+                    L += ['CLOSEFILE "d.dat"', 'OPENFILE "d.dat" FOR RANDOM', 'SEEK "d.dat", 1', 'GETRECORD "d.dat", w', show, 'SEEK "d.dat", 3', 'GETRECORD "d.dat", w', show, 'SEEK "d.dat", 4', 'CLOSEFILE "d.dat"']
+                files = {}
+                if seeded:
+                    # a file written by an earlier run of the same declarations: produced by the model/implementation pair through the files comparison of the non-seeded variant
+                    continue
+                out.append(Case(J(L), limits=dict(steps=20000), meta=dict(gen='single-kind-random-' + kname, sample=False)))
+                ent = sum(gen.to_entries(L), [])
+                out.append(Case(mode='repl', stdin=J(ent), limits=dict(steps=20000), meta=dict(gen='single-kind-random-repl-' + kname, sample=False)))
+    return out
+
 def extra(pid, tier, rng):
     """the families each property's check runs in addition to its own generators"""
     if pid == 'C01':
@@ -1276,6 +1322,7 @@ def extra(pid, tier, rng):
         c += parameter_list_shapes() + stray_signals_after_legal_ones()[::2] + input_at_end_of_input_with_files_open()[::2] + continue_and_break_positions()[::2]
         c += history_independence()[::3]
         c += pointer_targets_across_user_types() + argument_type_errors_by_position()[::9] + names_differing_in_case()[::3] + failing_calls_then_probes()
+        c += single_kind_random_sessions()[::2] + deref_node_reuse()
         c += rng.sample(retyped_sites(rng, n_orders=1), 40) + rng.sample(nested_undeclared(rng), 20) + undeclared_field_vs_names()[::3]
         return c
     if pid == 'C02': return nodes_evaluated_twice(rng) + lexer_failure_then_probe(rng) + concat_matrix() + retyped_sites(rng, ['plus', 'minus', 'div', 'concat', 'less', 'not', 'and', 'length', 'mid']) + reentrant_nodes() + history_independence() + failing_calls_then_probes()
@@ -1283,7 +1330,7 @@ def extra(pid, tier, rng):
     if pid == 'C04': return identifier_targets_by_binding() + array_scope_matrix() + side_effects_in_subexpressions() + call_type_matrix() + scope_change_in_activation(rng) + nested_undeclared(rng) + alias_then_replace() + reentrant_nodes() + callers_locals_are_invisible() + byref_argument_resolution() + parameter_list_shapes() + argument_type_errors_by_position()[::2] + names_differing_in_case() + scalar_and_array_share_a_name()
     if pid == 'C05': return [c for c in identifier_targets_by_binding() if 'input' in c.meta['gen'] or 'assign' in c.meta['gen']] + call_type_matrix() + array_cross_types() + retyped_sites(rng, ['store', 'byval', 'fn', 'index']) + shadowed_types() + loop_counter_rebound() + creation_fails_then_probe() + pointer_targets_across_user_types() + argument_type_errors_by_position()[::2]
     if pid == 'C06': return array_scope_matrix() + side_effects_in_subexpressions() + redeclared_bounds(rng) + retyped_sites(rng, ['index']) + array_cross_types() + byref_argument_resolution() + state_dependent_type_bodies() + undeclared_field_vs_names()
-    if pid == 'C07': return shadowed_types() + alias_then_replace() + undeclared_field_vs_names() + side_effects_in_subexpressions() + state_dependent_type_bodies() + parameter_list_shapes()
+    if pid == 'C07': return shadowed_types() + alias_then_replace() + undeclared_field_vs_names() + side_effects_in_subexpressions() + state_dependent_type_bodies() + parameter_list_shapes() + deref_node_reuse()
     if pid == 'C08': return scope_change_in_activation(rng) + scalar_and_array_share_a_name() + loop_counter_rebound()
     if pid == 'C09': return deref_node_reuse() + alias_then_replace() + pointer_to_implicit_record() + escaping_pointers() + alias_used_after_value_replaced() + pointer_targets_across_user_types()
     if pid == 'C10':
@@ -1292,12 +1339,12 @@ def extra(pid, tier, rng):
         return c
     if pid == 'C11': return far_lines() + far_lines(runtime=True) + empty_comment_faults() + failing_record_creation() + errors_below_statements() + stray_signals_after_legal_ones()
     if pid == 'C12': return lexer_failure_then_probe(rng) + failing_record_creation() + runfile_with_handles() + creation_fails_then_probe() + failing_calls_then_probes()
-    if pid == 'C13': return [c for c in identifier_targets_by_binding() if 'getrecord' in c.meta['gen']] + far_dates_files()[0] + records_with_array_fields_in_files() + scalar_and_array_share_a_name() + alias_used_after_value_replaced()
-    if pid == 'C14': return far_seek() + records_with_array_fields_in_files() + alias_used_after_value_replaced()
+    if pid == 'C13': return [c for c in identifier_targets_by_binding() if 'getrecord' in c.meta['gen']] + far_dates_files()[0] + records_with_array_fields_in_files() + scalar_and_array_share_a_name() + alias_used_after_value_replaced() + single_kind_random_sessions()
+    if pid == 'C14': return far_seek() + records_with_array_fields_in_files() + alias_used_after_value_replaced() + single_kind_random_sessions()
     if pid == 'C15': return far_dates_files()[0] + far_dates_output() + [c for c in identifier_targets_by_binding() if 'readfile' in c.meta['gen']] + runfile_with_handles() + alias_used_after_value_replaced() + continue_and_break_positions() + input_at_end_of_input_with_files_open()[::3]
-    if pid == 'C16': return pedantic_tail_with_files() + side_effects_in_subexpressions() + runfile_with_handles() + input_at_end_of_input_with_files_open()
+    if pid == 'C16': return pedantic_tail_with_files() + side_effects_in_subexpressions() + runfile_with_handles() + input_at_end_of_input_with_files_open() + single_kind_random_sessions()
     if pid == 'C17': return lexer_failure_then_probe(rng) + nodes_evaluated_twice(rng) + reentrant_nodes() + history_independence() + failing_calls_then_probes()
-    if pid == 'C18': return far_dates_output() + nodes_evaluated_twice(rng) + date_literal_positions() + lexer_failure_then_probe(rng) + history_independence()
+    if pid == 'C18': return far_dates_output() + nodes_evaluated_twice(rng) + date_literal_positions() + lexer_failure_then_probe(rng) + history_independence() + deref_node_reuse()
     if pid == 'C19': return array_cross_types() + shadowed_types() + nodes_evaluated_twice(rng) + callers_locals_are_invisible() + pointer_targets_across_user_types() + argument_type_errors_by_position()
     if pid == 'C20': return nested_undeclared(rng) + shadowed_condition(rng) + pedantic_tail_with_files() + declaredness_changes_per_activation() + creation_fails_then_probe() + names_differing_in_case()
     return []
